@@ -152,6 +152,9 @@ func main() {
 			return gqlgen.Exec(b, qq.Text(), qq.Vars, &gqlgen.Scripted{Choices: choices})
 		}
 		obsA := exec(q, c.Choices[0])
+		if obsA.Mutated != "" {
+			run.Fail(idx, "execute-modifies-parsed-query", obsA.Mutated+"\nquery: "+text, c)
+		}
 		pr := q.Prune()
 		obsP := exec(pr, nil)
 		nd, both, multi := q.CountDirs()
